@@ -46,7 +46,7 @@ def _sub(case):
     return None
 
 RULE = ('histories of 10-80 operations on a real MeterProvider with 1-3 explicit readers of mixed temporality: create '
-        'observable counter / up-down counter / gauge (and, in the ABI v2 build, synchronous gauge), AddCallback / '
+        'observable counter / up-down counter / gauge (and, in the ABI v2 build, synchronous gauge), each in the long and (40%) the double flavour, through the (name) / (name, description) / (name, description, unit) forms, AddCallback / '
         'RemoveCallback / instrument destruction, gauge Record, Collect with a script saying what each callback observes in '
         'that cycle (monotone and non-monotone totals, attribute sets appearing and disappearing); callback invocations are '
         'logged by the harness. non-trivial = at least one registered callback and two collections; distinct = distinct line')
@@ -71,6 +71,13 @@ def corpus():
     c(line(['D', 'D', 'C'], ['create og', 'create ou', 'addcb 0 0', 'addcb 1 0', 'addcb 1 3', 'collect 0 0=1:10,2:5 3=5:1', 'collect 1 0=1:4',
                              'collect 2 0=2:8 3=5:-4,5:7', 'collect 0', 'collect 1 0=0:1']), 'mixed')
     c(line(['C', 'D'], ['create sg', 'create og', 'addcb 1 0', 'grec 0 2 5', 'grec 0 2 7', 'collect 0 0=1:4', 'grec 0 3 1', 'collect 1 0=1:3', 'collect 0', 'grec 0 2 -1', 'collect 1', 'collect 0']), 'sync-gauge', H2)
+    # the double flavours (CreateDoubleObservable*, ObserverResultT<double>, double sum / last-value aggregations, CreateDoubleGauge)
+    c(line(['D', 'C'], ['create ocd', 'create oud', 'create ogd', 'addcb 0 0', 'addcb 1 1', 'addcb 2 2', 'collect 0 0=1:10,2:3 1=1:-5,0:7 2=3:4,0:1', 'collect 1 0=1:12,2:3 1=1:-9 2=3:2',
+                             'collect 0 0=1:15,2:4,3:1 1=1:2,0:7 2=3:9', 'rmcb 1 1', 'collect 1 0=1:15 1=1:99 2=0:5', 'destroy 2', 'collect 0 0=1:16 2=0:6']), 'double-flavour')
+    c(line(['C', 'D'], ['create sgd', 'create ogd', 'create sg', 'addcb 1 0', 'grec 0 2 5', 'grec 0 2 -7', 'grec 2 1 3', 'collect 0 0=1:4', 'grec 0 0 1', 'grec 0 3 1024', 'collect 1 0=1:3', 'collect 0', 'grec 0 2 -1', 'grec 2 0 8', 'collect 1', 'collect 0']), 'double-flavour', H2)
+    c(line(['D'], ['create oc', 'create oc', 'create oc', 'create ocd', 'create ocd', 'create ocd', 'addcb 0 0', 'addcb 1 0', 'addcb 2 0', 'addcb 3 0', 'addcb 4 0', 'addcb 5 0', 'collect 0 0=0:1,1:2,2:3,3:4,4:5,5:6', 'collect 0 0=0:2,1:2,2:4,3:4,4:6,5:6']), 'one-callback-on-several-instruments')
+    c('obs cfg D ; create odd', 'malformed')
+    c('obs cfg D ; create ocx', 'malformed')
     c('obs cfg D ; addcb 0 0', 'malformed')
     c('obs cfg D ; create oc ; collect 0 9=1:1', 'malformed')
     return out + [c for m in SUBS for c in m.corpus()]
@@ -91,11 +98,13 @@ def gen_history(rng, nops, allow_sg):
     uses_sg = False
     for _ in range(nops):
         r = rng.random()
-        obs_alive = [i for i, k in enumerate(kinds) if k != 'sg' and alive[i]]
+        obs_alive = [i for i, k in enumerate(kinds) if k[:2] != 'sg' and alive[i]]
         if not kinds or r < 0.06:
             ks = ['oc', 'ou', 'og'] + (['sg', 'sg'] if allow_sg else [])
             k = rng.choice(ks)
             uses_sg |= k == 'sg'
+            if rng.random() < 0.4:
+                k += 'd'                       # the double flavour of the instrument
             ops.append(f'create {k}'); kinds.append(k); alive.append(True)
         elif r < 0.18 and obs_alive:
             i = rng.choice(obs_alive); cb = rng.randrange(ncb)
@@ -114,8 +123,8 @@ def gen_history(rng, nops, allow_sg):
         elif r < 0.27 and obs_alive:
             i = rng.choice(obs_alive)
             ops.append(f'destroy {i}'); alive[i] = False; regs = [x for x in regs if x[0] != i]
-        elif r < 0.45 and any(k == 'sg' for k in kinds):
-            i = rng.choice([i for i, k in enumerate(kinds) if k == 'sg'])
+        elif r < 0.45 and any(k[:2] == 'sg' for k in kinds):
+            i = rng.choice([i for i, k in enumerate(kinds) if k[:2] == 'sg'])
             ops.append(f'grec {i} {rng.choice(pool_all)} {rng.randrange(-50, 1000)}')
         else:
             rd = rng.randrange(nr)
@@ -255,7 +264,7 @@ def _oracle(case, out):
                 for a, v in ms.items():
                     if a in reported.setdefault(i, {}):
                         tainted.add(i)
-                    if kinds[i] == 'oc' and v < 0:
+                    if kinds[i][:2] == 'oc' and v < 0:
                         tainted.add(i)              # a negative "running total" of a monotonic counter is not a total
                     reported[i][a] = v
             for i, d in reported.items():
@@ -278,7 +287,8 @@ def _oracle(case, out):
                     if i in got or i >= len(kinds) or mm.group(2) != kinds[i]:
                         return ('one-metricdata-per-instrument', part)
                     got[i] = (mm.group(3), mm.group(4), mm.group(5), pts)
-            for i, k in enumerate(kinds):
+            for i, kf in enumerate(kinds):
+                k = kf[:2]                                   # the double flavour obeys the same clauses
                 md = got.get(i)
                 pts = md[3] if md else {}
                 temp = readers[r] if k != 'sg' else 'C'      # a synchronous gauge is always reported cumulatively
@@ -329,9 +339,9 @@ def bad_case(ops, harness):
         for op in ops[1:]:
             t = op.split(' ')
             if t[0] == 'create' and len(t) == 2:
-                if t[1] not in ('oc', 'ou', 'og', 'sg') or (t[1] == 'sg' and harness == H1):
+                if t[1] not in ('oc', 'ou', 'og', 'sg', 'ocd', 'oud', 'ogd', 'sgd') or (t[1][:2] == 'sg' and harness == H1):
                     return True
-                kinds.append(t[1])
+                kinds.append(t[1][:2])
             elif t[0] in ('addcb', 'rmcb') and len(t) == 3:
                 if not t[1].isdigit() or not t[2].isdigit() or int(t[1]) >= len(kinds) or int(t[2]) >= 8:
                     return True
